@@ -26,6 +26,7 @@ KINDS_Q = [1, 5, 7, 0, 'apple', 'Apple', 'pear', None]
 KINDS_T = KINDS_Q + [5.5, 'p*r']
 TARGET = [1, 2, 4, 8]
 TARGET2 = [16, 't', None, 128]
+TARGET_E = [32, 64, 256, 512]   # E3:E6
 SECOND = [3, 9, 3, 9]          # fixed second criteria range, criterion ">5" selects positions 1 and 3 (0-based)
 
 # (name, formula text of the criterion, value the criterion evaluates to)
@@ -36,10 +37,12 @@ FORMS = [
     ('ne_text', '"<>apple"', '<>apple'), ('eq_text', '"=apple"', '=apple'),
     ('gt_cell', '">"&F1', '>5'), ('ne_cell', '"<>"&F1', '<>5'), ('ne_cell_text', '"<>"&I1', '<>apple'), ('le_cell', '"<="&F1', '<=5'),
     ('cell_num', 'F1', 5), ('cell_op', 'G1', '>5'), ('cell_text', 'I1', 'apple'),
+    ('gt_text', '">b"', '>b'), ('le_text_upper', '"<=Apple"', '<=Apple'), ('ge_text_upper', '">=B"', '>=B'), ('lt_text', '"<pear"', '<pear'),
+    ('lt_text_cell', '"<"&J1', '<Pear'),
     ('wild_prefix', '"a*"', 'a*'), ('wild_q', '"?pple"', '?pple'), ('wild_suffix', '"*e"', '*e'), ('wild_all', '"*"', '*'),
     ('wild_escape', '"p~*r"', 'p~*r'), ('wild_len', '"????"', '????'), ('wild_mid', '"p*r"', 'p*r'),
 ]
-FIXED = {'F1': 5, 'G1': '>5', 'I1': 'apple', 'Z9': 0}
+FIXED = {'F1': 5, 'G1': '>5', 'I1': 'apple', 'J1': 'Pear', 'Z9': 0}
 
 # function variants: name -> (formula template with {c}, kind, second pair?)
 VARIANTS = [
@@ -58,6 +61,9 @@ VARIANTS = [
     ('SUMIF/3corner', '=SUMIF(A1:A{n},{c},B1)', 'sum', False),
     ('SUMIF/3short', '=SUMIF(A1:A{n},{c},B1:B2)', 'sum', False),
     ('SUMIF/3long', '=SUMIF(A1:A{n},{c},B1:B6)', 'sum', False),
+    ('SUMIF/3lower', '=SUMIF(A1:A{n},{c},B2:B{p})', 'sum_lower1', False),
+    ('SUMIF/3lowercorner', '=SUMIF(A1:A{n},{c},B3)', 'sum_lower2', False),
+    ('SUMIF/3lowershort', '=SUMIF(A1:A{n},{c},E3:E4)', 'sum_e', False),
     # different sizes: an error, never a number
     ('SUMIFS/short', '=SUMIFS(B1:B{m},A1:A{n},{c})', 'error', False),
     ('SUMIFS/long', '=SUMIFS(B1:B{p},A1:A{n},{c})', 'error', False),
@@ -67,8 +73,23 @@ VARIANTS = [
 ]
 
 
-def build(n):
+import datetime
+DATE_CELL = datetime.datetime(2020, 1, 31)   # serial 43861
+# criteria whose text is assembled from a cell that is not an integer: the text form of the cell decides
+FORMS_TF = [
+    ('gt_cell_date', '">"&L1', '>43861'), ('ne_cell_date', '"<>"&L1', '<>43861'), ('le_cell_date', '"<="&L1', '<=43861'),
+    ('eq_cell_float17', '"="&O1', '=0.3'), ('ne_cell_float17', '"<>"&O1', '<>0.3'), ('lt_cell_intfloat', '"<"&M1', '<5'),
+    ('eq_cell_num', '"="&F1', '=5'),
+]
+FIXED_TF = {'L1': DATE_CELL, 'O1': '=0.1+0.2', 'M1': '=10/2'}
+KINDS_TF = [43860, 43862, 0.3, 5, 'apple', None]
+
+
+def build(n, tf=False):
+    forms = FORMS_TF if tf else FORMS
     cells = dict(FIXED)
+    if tf:
+        cells.update(FIXED_TF)
     for i in range(4):
         cells[f'B{i + 1}'] = TARGET[i]
         cells[f'C{i + 1}'] = SECOND[i]
@@ -76,10 +97,12 @@ def build(n):
             cells[f'D{i + 1}'] = TARGET2[i]
     cells['B5'] = 1000
     cells['B6'] = 2000
+    for i, v in enumerate(TARGET_E):
+        cells[f'E{i + 3}'] = v
     cells['C5'] = 9
     meta = []
     row = 20
-    for fi, (fname, ftext, fval) in enumerate(FORMS):
+    for fi, (fname, ftext, fval) in enumerate(forms):
         for vi, (vname, tmpl, kind, second) in enumerate(VARIANTS):
             col = D_col(vi)
             addr = f'{col}{row}'
@@ -97,10 +120,10 @@ def D_col(i):
 _BUILT = {}
 
 
-def built(n):
-    if n not in _BUILT:
-        _BUILT[n] = build(n)
-    return _BUILT[n]
+def built(n, tf=False):
+    if (n, tf) not in _BUILT:
+        _BUILT[(n, tf)] = build(n, tf)
+    return _BUILT[(n, tf)]
 
 
 # ---------------------------------------------------------------------------------------------
@@ -151,7 +174,17 @@ def predicate(crit):
         cmp = {'>': lambda a: a > operand, '<': lambda a: a < operand, '>=': lambda a: a >= operand, '<=': lambda a: a <= operand}[op]
         return lambda x: is_num(x) and cmp(x)
     if op not in ('=', '<>'):
-        raise R.Unspecified('ordering operator with a text')
+        # texts are ordered ignoring case; only plain ASCII words are enumerated, so the collation is not in question
+        if not re.fullmatch('[A-Za-z]+', operand):
+            raise R.Unspecified('ordering operator with a text that is not a plain word')
+        low = operand.lower()
+        tcmp = {'>': lambda a: a > low, '<': lambda a: a < low, '>=': lambda a: a >= low, '<=': lambda a: a <= low}[op]
+
+        def tord(x):
+            if isinstance(x, str) and not re.fullmatch('[A-Za-z]+', x):
+                raise R.Unspecified('collation of a text that is not a plain word')
+            return isinstance(x, str) and tcmp(x.lower())
+        return tord
     rx = wild_regex(operand)
 
     def teq(x):
@@ -167,6 +200,9 @@ def expected(kind, second, vec, crit):
         return len(sel), sel
     if kind == 'sum':
         return sum(TARGET[i] for i in sel), sel
+    if kind in ('sum_lower1', 'sum_lower2', 'sum_e'):
+        col = {'sum_lower1': (TARGET + [1000, 2000])[1:], 'sum_lower2': (TARGET + [1000, 2000])[2:], 'sum_e': TARGET_E}[kind]
+        return sum(col[i] for i in sel), sel
     if kind == 'sumself':
         return sum(vec[i] for i in sel if is_num(vec[i])), sel
     if kind == 'sum2':
@@ -199,9 +235,9 @@ def crit_class(fname):
     return 'op_number'
 
 
-def judge(vec, outs, meta, src, stats, i, vio):
+def judge(vec, outs, meta, src, stats, i, vio, tf=False):
     for (addr, fi, vi), o in zip(meta, outs):
-        fname, ftext, fval = FORMS[fi]
+        fname, ftext, fval = (FORMS_TF if tf else FORMS)[fi]
         vname, tmpl, kind, second = VARIANTS[vi]
         stats['out:' + S.out_label(o)] += 1
         try:
@@ -229,13 +265,14 @@ def judge(vec, outs, meta, src, stats, i, vio):
 def run_ov(cases, stats):
     vio = []
     for i, c in enumerate(cases):
-        kinds = KINDS_T if c.get('t') else KINDS_Q
+        tf = bool(c.get('tf'))
+        kinds = KINDS_TF if tf else (KINDS_T if c.get('t') else KINDS_Q)
         vec = [kinds[j] for j in c['v']]
-        sheets, meta = built(len(vec))
+        sheets, meta = built(len(vec), tf)
         cls = S.get_class(sheets, stats=stats)
         ov = [(f'A{k + 1}', v) for k, v in enumerate(vec) if v is not None]
         outs = S.run(cls, ov, [a for a, *_ in meta], stats)
-        judge(vec, outs, meta, 'ov', stats, i, vio)
+        judge(vec, outs, meta, 'ov', stats, i, vio, tf)
     return vio
 
 
@@ -281,7 +318,12 @@ def plan(tier, seed):
             for v in itertools.product(range(len(KINDS_T)), repeat=n):
                 yield {'v': list(v)}
 
+    def tf_vecs():
+        for v in itertools.product(range(len(KINDS_TF)), repeat=3):
+            yield {'v': list(v), 'tf': True}
+
     return [
         {'name': 'criteria-override', 'cases': vecs(), 'runner': 'run_ov', 'chunk': 32},
+        {'name': 'criteria-assembled-from-noninteger-cells', 'cases': tf_vecs(), 'runner': 'run_ov', 'chunk': 32},
         {'name': 'criteria-constant', 'cases': consts(), 'runner': 'run_cell', 'chunk': 2},
     ]
